@@ -5,6 +5,7 @@ Property theorems only; helper lemmas live in `KrillModel/Ca/Lemmas*.lean`.
 import KrillModel.Ca.Preds
 import KrillModel.Ca.LemmasNoOver
 import KrillModel.Ca.LemmasKeySync
+import KrillModel.Ca.LemmasShrink
 namespace KM.Props.C02
 open KM KM.CaK KM.Res KM.AMap
 
@@ -164,6 +165,77 @@ example :
 example :
     (get (Sys.run {} (staleHistory.take 8)).ca.classes 0).map (fun rc => (rc.certs.issued, rc.certs.suspended)) =
       some ([(6, { res := [1, 2], na := 61 })], [(6, { res := [1, 2], na := 60 })]) := by decide
+
+/-- What is proved of `shrink_active_child`: in a class **without stale suspended entries**
+(no key both issued and suspended; keys of `issued` pairwise different, as in a `HashMap`), the
+command that receives a smaller certificate leaves every issued child certificate exactly as
+the property demands: untouched if it still fits, re-issued with the intersection if the
+intersection is not empty, removed if nothing is left.  Missing for the full statement: that
+these two hypotheses are invariants of histories in which no certificate is issued for a key
+with a suspended entry is not proved here (on this tree unsuspension breaks the first, which is
+F-C02-1). -/
+theorem shrink_active_child_partial (rc : Rc) (hnd : (keys rc.certs.issued).Nodup) (hns : rc.noStale = true)
+    (cert : Cert) (na : Int) (upd : CertUpd) (hsh : rc.certs.shrinkOverclaiming cert na = .ok upd)
+    (k : KeyId) (cc : ChildCert) (hk : get rc.certs.issued k = some cc) :
+    (subset cc.res cert.res = true → get (rc.certs.applyUpd upd).issued k = some cc) ∧
+    (subset cc.res cert.res = false → isEmpty (inter cert.res cc.res) = true →
+      get (rc.certs.applyUpd upd).issued k = none ∧ k ∈ upd.removed) ∧
+    (subset cc.res cert.res = false → isEmpty (inter cert.res cc.res) = false →
+      ∃ cc', get (rc.certs.applyUpd upd).issued k = some cc' ∧
+        reissue cc (some (inter cert.res cc.res)) cert na = .ok cc' ∧
+        (cc.limit = none → cc'.res = inter cert.res cc.res)) := by
+  unfold ChildCerts.shrinkOverclaiming at hsh
+  cases h1 : shrinkList rc.certs.issued cert na with
+  | error e => simp [h1] at hsh
+  | ok pr1 =>
+    obtain ⟨iss, rem1⟩ := pr1
+    simp only [h1] at hsh
+    cases h2 : shrinkList rc.certs.suspended cert na with
+    | error e => simp [h2] at hsh
+    | ok pr2 =>
+      obtain ⟨sus, rem2⟩ := pr2
+      simp only [h2, Except.ok.injEq] at hsh; subst hsh
+      -- the key has no suspended entry, so the second loop does not mention it
+      have hnosus : get rc.certs.suspended k = none := by
+        simp only [Rc.noStale, List.all_eq_true] at hns
+        have := hns (k, cc) (mem_of_get hk)
+        simpa using this
+      have hnk : k ∉ keys rc.certs.suspended := fun hm => by
+        have := get_isSome_iff_mem_keys.mpr hm
+        rw [hnosus] at this; cases this
+      obtain ⟨_, _, hsub2⟩ := shrinkList_spec h2
+      have hk_sus : k ∉ sus.map (·.1) := fun hm => hnk (hsub2 k (Or.inr hm))
+      have hk_rem2 : k ∉ rem2 := fun hm => hnk (hsub2 k (Or.inl hm))
+      obtain ⟨ha, hb, hc⟩ := shrinkList_exact hnd h1 (k, cc) (mem_of_get hk)
+      have hget := applyUpd_issued_get rc.certs { issued := iss, removed := rem1 ++ rem2, suspended := sus } rfl k
+      simp only [hk_sus, if_false, List.mem_append, hk_rem2, or_false] at hget
+      refine ⟨?_, ?_, ?_⟩
+      · intro hs
+        obtain ⟨hl, hr⟩ := ha hs
+        rw [hget]; simp [hr, hl, hk]
+      · intro hs he
+        obtain ⟨_, hr⟩ := hb hs he
+        rw [hget]
+        exact ⟨by simp [hr], List.mem_append_left _ hr⟩
+      · intro hs he
+        obtain ⟨cc', hl, hre, hr⟩ := hc hs he
+        refine ⟨cc', ?_, hre, ?_⟩
+        · rw [hget]; simp [hr, hl]
+        · intro hlim
+          simp only [reissue, makeIssued, hlim, applyLimit, Option.getD_some] at hre
+          split at hre
+          · cases hre; rfl
+          · cases hre
+
+/-- Non-vacuity: three children – one fits, one is narrowed, one loses everything. -/
+example :
+    let rc : Rc := Rc.mk 9 0 (.active ⟨4, { res := [1, 2, 3] }, false⟩)
+      ⟨[(5, { res := [1] }), (6, { res := [1, 2] }), (7, { res := [3] })], []⟩ []
+    (keys rc.certs.issued).Nodup ∧ rc.noStale = true ∧
+    rc.certs.shrinkOverclaiming { res := [1] } 9 =
+      .ok { issued := [(6, { res := [1], na := 9 })], removed := [7] } ∧
+    (rc.certs.applyUpd { issued := [(6, { res := [1], na := 9 })], removed := [7] }).issued =
+      [(6, { res := [1], na := 9 }), (5, { res := [1] })] := by decide
 
 /-! ## The published level -/
 
